@@ -36,6 +36,13 @@ EvScan ==
                \cup If(e.outcome = "values" /\ genbank /\ oneRecord /\ e.lens[1] # e.declared[1] /\ e.seed = "s1" /\ ~ContigOnly(ls), {<<"short-read", "-">>})
                \cup UNION {If(e.outcome = "values", {<<"strict", c>>}) : c \in inc}
                \cup If(truncated /\ e.outcome = "values", {<<"strict", "truncated">>})
+               \* the CONTIG-only seed with its CONTIG line damaged (and no ORIGIN block): nothing describes the
+               \* 100 declared residues any more
+               \cup If(e.seed = "s2" /\ e.byteop.k = "none" /\ e.outcome = "values" /\ "contigbad" \in Flags(ls)
+                        /\ Cardinality({j \in 1..Len(ls) : ls[j].kind = "LOCUS"}) = 1 /\ (~\E j \in 1..Len(ls) : ls[j].kind = "ORIGIN")
+                        \* (and no intact CONTIG line is left, e.g. a duplicate or the extra one of variant contig-extra)
+                        /\ (~\E q \in 1..Len(ls) : (ls[q].kind = "CONTIG" /\ ls[q].flag # "contigbad") \/ ls[q].text = "CONTIG      join(X1:1..70)"),
+                      {<<"strict", "contig">>})
          tag(v) == IF v[1] = "strict" /\ v[2] = "indent" /\ "LenientLines" \in Devs /\ e.seed = "s1" /\ OnlyLenientIndent(ls)
                    THEN "dev:LenientLines" ELSE "-"
      IN verdicts' = verdicts \cup {<<l, e.case, MutName(e), v[1], v[2], tag(v)>> : v \in vs}
